@@ -38,13 +38,14 @@ type Case struct {
 	MaxMeta     int64
 	Delay       time.Duration
 	Seed        uint64
-	Mount       string // "", ok, refuse (remote destination only)
-	Depth       int    // ExtendedCopy* only (0: unlimited)
-	RefIsDigest bool   // the source reference is the root's digest string
-	FilterAll   bool   // ExtendedCopy*: install FilterArtifactType with a match-all regex (exercises the filter listing path)
-	SubjectOnly bool   // the source exposes subject links only (registry): ancestors follow referrers
-	PreTag      int    // node (of Prepop) the destination reference points at before the call, -1: none
-	RaceNode    int    // node that a simulated concurrent writer pushes to the destination just before the library does, -1: none
+	Mount       string   // "", ok, refuse (remote destination only)
+	MountCands  []string // candidate repositories MountFrom returns (may repeat, may name repositories without the blob)
+	Depth       int      // ExtendedCopy* only (0: unlimited)
+	RefIsDigest bool     // the source reference is the root's digest string
+	FilterAll   bool     // ExtendedCopy*: install FilterArtifactType with a match-all regex (exercises the filter listing path)
+	SubjectOnly bool     // the source exposes subject links only (registry): ancestors follow referrers
+	PreTag      int      // node (of Prepop) the destination reference points at before the call, -1: none
+	RaceNode    int      // node that a simulated concurrent writer pushes to the destination just before the library does, -1: none
 	Profile     *regmodel.Profile
 }
 
@@ -225,12 +226,15 @@ func GenCase(rng *rand.Rand, o GenOpts) *Case {
 	if c.DstKind == "remote" && rng.IntN(3) == 0 {
 		c.Mount = []string{"ok", "refuse"}[rng.IntN(2)]
 	}
+	c.MountCands = [][]string{{"test/other"}, {"test/other"}, {"test/none", "test/other"}, {"test/other", "test/none", "test/other"},
+		{"test/none", "test/none"}, {"test/none", "test/other", "test/none"}}[rng.IntN(6)]
 	if c.SrcKind == "remote" || c.DstKind == "remote" {
 		p := regmodel.FullProfile()
 		p.DigestHeader = rng.IntN(4) != 0
 		p.Ranges = rng.IntN(2) == 0
 		p.ReferrersAPI = rng.IntN(2) == 0
 		p.MountOK = c.Mount == "ok"
+		p.StrictRefs = rng.IntN(3) != 0 // some registries accept manifests whose blobs are missing
 		c.Profile = &p
 	}
 	return c
@@ -362,6 +366,9 @@ func (c *Case) Run(ctx context.Context, e *Env) (ocispec.Descriptor, error) {
 		gopts.MountFrom = func(ctx context.Context, desc ocispec.Descriptor) ([]string, error) {
 			if err := e.Mon.at(ctx, "cb.MountFrom", e.Mon.node(desc)); err != nil {
 				return nil, err
+			}
+			if len(c.MountCands) > 0 {
+				return append([]string{}, c.MountCands...), nil
 			}
 			return []string{"test/other"}, nil
 		}
